@@ -355,6 +355,7 @@ func TestC34Num(t *testing.T) {
 			}
 			return wantRat(ratAbs(ir))(v)
 		})
+		it.errOK = iv == math.MinInt64
 		it.known = func(v any, err error) string {
 			// signature: i is the minimum of a signed integer width and comes back unchanged
 			if r, ok := num(v); err == nil && isMinSigned && ok && r.Cmp(ir) == 0 {
